@@ -101,8 +101,16 @@ type QueueOp struct {
 }
 
 type RecQueue struct {
-	mu  sync.Mutex
-	Ops []QueueOp
+	mu      sync.Mutex
+	Ops     []QueueOp
+	pending []any
+}
+
+// Push makes the next Get return item.
+func (q *RecQueue) Push(item any) {
+	q.mu.Lock()
+	defer q.mu.Unlock()
+	q.pending = append(q.pending, item)
 }
 
 var _ workqueue.TypedRateLimitingInterface[any] = &RecQueue{}
@@ -127,7 +135,16 @@ func (q *RecQueue) Reset() {
 }
 func (q *RecQueue) Add(item any)                            { q.rec("Add", item, 0) }
 func (q *RecQueue) Len() int                                { return 0 }
-func (q *RecQueue) Get() (any, bool)                        { return nil, true }
+func (q *RecQueue) Get() (any, bool) {
+	q.mu.Lock()
+	defer q.mu.Unlock()
+	if len(q.pending) == 0 {
+		return nil, true
+	}
+	it := q.pending[0]
+	q.pending = q.pending[1:]
+	return it, false
+}
 func (q *RecQueue) Done(item any)                           { q.rec("Done", item, 0) }
 func (q *RecQueue) ShutDown()                               {}
 func (q *RecQueue) ShutDownWithDrain()                      {}
